@@ -43,7 +43,7 @@ def _heap(focus, quick, thorough, asan_frac=6, extra_env=None):
         return [
             {"scen": "heap", "env": env, "runs": n, "configs": ["plain"], "chunk": 25},
             {"scen": "heap", "env": env, "runs": max(150, n // asan_frac), "configs": ["asan"], "first": 10_000_000, "chunk": 25},
-        ]
+        ] + ([{"scen": "heap", "env": env, "runs": max(300, n // 8), "configs": ["o0"], "first": 20_000_000, "chunk": 25}] if focus == 1 else [])
     return stages
 AVOID_KF_HEAP = 0
 
@@ -148,7 +148,7 @@ PROPS = {
                 "every object the shadow graph reaches must be un-finalised, its block live, its canary intact. Non-trivial = at least one "
                 "collection proven (a garbage object was released) while an object was reachable only through a non-stack path; distinct = distinct trace hashes.",
         "stages": _heap(1, 4000, 120_000, 10),
-        "rare_probes": ["heap.tls_set", "heap.new_root", "heap.link_mapkey", "heap.link_mapval", "heap.link_seq", "heap.copy", "heap.max_chain", "heap.container_clear"],
+        "rare_probes": ["heap.register_root", "heap.tls_set", "heap.new_root", "heap.link_mapkey", "heap.link_mapval", "heap.link_seq", "heap.copy", "heap.max_chain", "heap.container_clear"],
         "assumptions": ["never asserts that something unreachable was collected", "no interior pointers, no pointers in unscanned malloc memory, no cross-thread reachability",
                         "objects allocated while the collector is stopped and raw objects keep nothing alive"],
     },
@@ -158,8 +158,8 @@ PROPS = {
                 "stop(gc)..start(gc) windows with allocations and deletions inside, forced and threshold collections; every plan ends with the "
                 "program-exit teardown (Cello_Exit) - plan length is seeded, so the teardown point varies. Object ledger (destructor of the probe "
                 "type) + allocator block ledger: every managed object finalised exactly once and its block released exactly once by teardown, no "
-                "block released without its destructor, nothing managed left behind. Non-trivial = a collection proven while a non-stack path "
-                "existed (as C01) - the run also counts sweep-time deletions of pending objects and stop/start windows in rare_probes; "
+                "block released without its destructor, nothing managed left behind. Non-trivial = a collection proven (a garbage object released), "
+                "a Box ownership link or a stop/start window in the plan, and objects released by the teardown; "
                 "distinct = distinct trace hashes.",
         "stages": _heap(6, 4000, 120_000, 10),
         "rare_probes": ["heap.new_box", "heap.new_box_chain", "heap.del_box", "heap.del_root", "heap.del_raw", "heap.stop", "heap.new_while_stopped",
@@ -173,7 +173,7 @@ PROPS = {
                 "5*11*23*53[*101[*197]], home slot = last slot, so registry probe sequences collide and wrap at every size) and LIFO address reuse; "
                 "after every operation mem(current(GC), p) is compared with the ledger for every object ever seen (live and dead), and through the "
                 "read-only accessor hook: each registered object once, root flag as allocated, count matches, no mark left set. Non-trivial = a "
-                "collection proven while a non-stack path existed; distinct = distinct trace hashes.",
+                "collection proven and the registry rehashed up >= 3 times and down >= 1 time in the run; distinct = distinct trace hashes.",
         "stages": _heap(17, 4000, 200_000, 10),
         "rare_probes": ["reg.grow", "reg.shrink", "reg.probe_wrapped", "heap.del", "heap.del_root", "heap.del_box"],
         "assumptions": ["an object deleted while the collector is stopped may stay registered until a later collection"],
